@@ -54,7 +54,7 @@ def cases(tier, seed):
             # still resolve to threads; the third level is always a default call and must run in its parent's thread
             nest = dict(depth=3, outer_n=rng2.choice([2, 3]), inner_n=2,
                         mid_style=["default", "require-sharedmem", "ctx-loky+require-sharedmem", "prefer-threads", "ctx-threading", "ctx-multiprocessing+require-sharedmem",
-                                   "ctx-loky+prefer-threads"][(i // 2) % 7])
+                                   "prefer-threads+require-sharedmem"][(i // 2) % 7])
         phases = []
         if i % 3 == 2:
             # the limits change during the life of the process (after negative n_jobs values were resolved and pools were sized)
